@@ -31,6 +31,10 @@ def random_style(rng):
         "zero_values": rng.random() < 0.3,
         "explicit_values": True,
         "sensitive_value_in_cfg": rng.random() < 0.3,
+        # the address keys of sensitive_hosts and of host firewalls are read
+        # as tuples, so their spacing is free
+        "addr_spelling": rng.choice(["(%d, %d)", "(%d, %d)", "(%d,%d)",
+                                     "( %d, %d )", "(%d,  %d)"]),
     }
 
 
@@ -63,6 +67,7 @@ def valid_document(rng, tier):
     style = random_style(rng)
     flow = rng.choice([None, False, True])
     text = sp.to_yaml_text(style, flow)
+    valid_document.last_spec = sp
     return text, feats
 
 
@@ -696,7 +701,7 @@ def catalogue():
         "host_value_numeric_string": op_host_value_numeric_string,
         "section_missing": op_section_missing,
         "section_unknown": op_section_unknown,
-        "section_mistyped": op_section_mistyped,
+
         "subnets_empty": op_subnets_empty,
         "subnets_zero": op_subnets_zero,
         "subnets_negative": op_subnets_negative,
@@ -746,6 +751,14 @@ def catalogue():
             lambda doc, v: list(v) + ["nosuch_service"]),
         "step_limit_non_positive": op_step_limit_nonpositive,
     }
+    # one operator per mistyped section (each is guarded differently)
+    probe = {k: 0 for k in REQUIRED}
+    for label in [lab for lab, _d in op_section_mistyped(
+            dict(probe, step_limit=5), None, None)]:
+        ops["section_mistyped:" + label] = (
+            lambda doc, info, rng, _l=label: [
+                (lab, d) for lab, d in op_section_mistyped(doc, info, rng)
+                if lab == _l])
     for name, f in _def_ops("exploits", "service").items():
         ops["exploit_" + name] = f
     for name, f in _def_ops("privilege_escalation", "process").items():
@@ -815,6 +828,14 @@ def run(prop, tier, seed, shard, nshards):
                 else:
                     text, feats = valid_document(rng, tier)
                 c17_doc(acc, text, feats, f"{ctype}:{cid}", rng, z["steps"])
+                if ctype == "doc" and rng.random() < 0.4:
+                    # a second file of the same shape (names renamed or the
+                    # name lists re-ordered), loaded right after the first
+                    from ..twins import any_twin
+                    tw = any_twin(valid_document.last_spec, rng)
+                    c17_doc(acc, tw.to_yaml_text(random_style(rng)),
+                            {"twin"}, f"twin:{cid}", rng, z["steps"])
+                    acc.count("twin_documents")
             except Exception as e:      # noqa
                 import traceback
                 acc.inconclusive.append(
